@@ -1,4 +1,5 @@
 use std::mem::{swap, take};
+use std::sync::atomic::{AtomicBool, Ordering};
 use std::sync::Arc;
 
 use cas_client::Client;
@@ -71,6 +72,11 @@ pub struct FileUploadSession {
 
     // Internal worker
     xorb_upload_tasks: Mutex<JoinSet<Result<()>>>,
+
+    /// Set once a xorb upload of this session has failed.  The error itself is returned by the call that
+    /// observes it; from then on the session shards reference a xorb the store never received, so no
+    /// further xorb is registered and the session cannot be finalized.
+    xorb_upload_failed: AtomicBool,
 }
 
 // Constructors
@@ -113,6 +119,7 @@ impl FileUploadSession {
             current_session_data: Mutex::new(DataAggregator::default()),
             deduplication_metrics: Mutex::new(DeduplicationMetrics::default()),
             xorb_upload_tasks: Mutex::new(JoinSet::new()),
+            xorb_upload_failed: AtomicBool::new(false),
         }))
     }
 
@@ -153,6 +160,7 @@ impl FileUploadSession {
             current_session_data: Mutex::new(DataAggregator::default()),
             deduplication_metrics: Mutex::new(DeduplicationMetrics::default()),
             xorb_upload_tasks: Mutex::new(JoinSet::new()),
+            xorb_upload_failed: AtomicBool::new(false),
         }))
     }
 
@@ -167,11 +175,13 @@ impl FileUploadSession {
     }
 
     pub(crate) async fn register_new_xorb_for_upload(self: &Arc<Self>, xorb: RawXorbData) -> Result<()> {
+        self.check_no_failed_xorb_upload()?;
+
         // First check the current xorb upload tasks to see if any can be cleaned up.
         {
             let mut upload_tasks = self.xorb_upload_tasks.lock().await;
             while let Some(result) = upload_tasks.try_join_next() {
-                result??;
+                self.note_xorb_upload_result(result)?;
             }
         }
 
@@ -276,8 +286,33 @@ impl FileUploadSession {
         Ok(())
     }
 
+    /// Records the failure of a joined xorb upload task before passing it on.
+    fn note_xorb_upload_result(&self, result: std::result::Result<Result<()>, tokio::task::JoinError>) -> Result<()> {
+        let result = match result {
+            Ok(r) => r,
+            Err(e) => Err(e.into()),
+        };
+        if result.is_err() {
+            self.xorb_upload_failed.store(true, Ordering::SeqCst);
+        }
+        result
+    }
+
+    /// An earlier xorb upload failure is final for the session, also when the caller went on after the
+    /// call that reported it.
+    fn check_no_failed_xorb_upload(&self) -> Result<()> {
+        if self.xorb_upload_failed.load(Ordering::SeqCst) {
+            return Err(DataProcessingError::UploadTaskError(
+                "an earlier xorb upload of this session failed; the session cannot be continued or finalized".to_owned(),
+            ));
+        }
+        Ok(())
+    }
+
     /// Finalize everthing.
     async fn finalize_impl(self: Arc<Self>, return_files: bool) -> Result<(DeduplicationMetrics, Vec<MDBFileInfo>)> {
+        self.check_no_failed_xorb_upload()?;
+
         // Register the remaining xorbs for upload.
         let data_agg = take(&mut *self.current_session_data.lock().await);
         self.process_aggregated_data_as_xorb(data_agg).await?;
@@ -286,7 +321,7 @@ impl FileUploadSession {
         let mut upload_tasks = take(&mut *self.xorb_upload_tasks.lock().await);
 
         while let Some(result) = upload_tasks.join_next().await {
-            result??;
+            self.note_xorb_upload_result(result)?;
         }
 
         // Now that all the remaining xorbs are uploaded, take the metrics; the upload tasks
